@@ -949,3 +949,38 @@ package stats
 //@   trusted restatement of the contract proved in model real
 //@   ensures s.Sorted && sortedF(s.Xs) && result == s && len(s.Xs) == old(len(s.Xs)) && region(s.Xs) == old(region(s.Xs)) && region(s.Weights) == old(region(s.Weights)) && offset(s.Xs) == old(offset(s.Xs)) && (forall k in 0..len(s.Xs) :: isfinite(s.Xs[k]))
 //@   assigns s.Sorted, s.Xs[*], s.Weights[*]
+
+// ---------------------------------------------------------------------
+// Generic inverse CDF (C07). Model xreal. The distribution is an arbitrary
+// pure CDF with the property's hypothesis (non-decreasing, values in [0,1]).
+
+//@ assume pure DistCommon.CDF
+//@ spec dist_lo(d DistCommon) float64
+//@ spec dist_hi(d DistCommon) float64
+//@ assume func DistCommon.Bounds
+//@   results lo, hi
+//@   ensures lo == dist_lo(self) && hi == dist_hi(self)
+//@   assigns nothing
+
+//@ func bisectBool
+//@   model xreal
+//@   requires isfinite(low) && isfinite(high) && low < high && isfinite(xtol) && f(low) != f(high)
+//@   ensures [ends]    f(x1) == f(low) && f(x2) == f(high)
+//@   ensures [ordered] low <= x1 && x1 < x2 && x2 <= high
+//@   loop 1 invariant isfinite(low) && isfinite(high) && low < high && old(low) <= low && high <= old(high) && flow == f(low) && fhigh == f(high) && flow == old(f(low)) && fhigh == old(f(high)) && flow != fhigh
+//@   assigns nothing
+
+//@ func InvCDF#lit1
+//@   model xreal
+//@   requires !isnan(y)
+//@   requires forall a float64, b float64 :: a <= b ==> dist.CDF(a) <= dist.CDF(b)
+//@   requires forall a float64 :: !isnan(a) ==> 0 <= dist.CDF(a) && dist.CDF(a) <= 1
+//@   ensures [nan]      (y < 0 || y > 1) ==> isnan(x)
+//@   ensures [zero-at]  feq(y, 0) && feq(dist.CDF(dist_lo(dist)), 0) ==> x == dist_lo(dist)
+//@   ensures [zero-inf] feq(y, 0) && !feq(dist.CDF(dist_lo(dist)), 0) ==> x == ninf
+//@   ensures [one-at]   feq(y, 1) && feq(dist.CDF(dist_hi(dist)), 1) ==> x == dist_hi(dist)
+//@   ensures [one-inf]  feq(y, 1) && !feq(dist.CDF(dist_hi(dist)), 1) ==> x == inf
+//@   ensures [reaches]  0 < y && y < 1 && isfinite(x) ==> dist.CDF(x) >= y
+//@   loop 1 invariant xdelta > 0 && isfinite(xdelta) && isfinite(hiX) && hiY == dist.CDF(hiX) && ((hiX == 0 && hiY < y) || (isfinite(loX) && loX < hiX && loY == dist.CDF(loX) && loY < y))
+//@   loop 2 invariant xdelta > 0 && isfinite(xdelta) && isfinite(loX) && loY == dist.CDF(loX) && ((loX == 0 && y <= loY) || (isfinite(hiX) && loX < hiX && hiY == dist.CDF(hiX) && y <= hiY))
+//@   assigns nothing
